@@ -2,6 +2,7 @@
 stage oracle of harness/c05_oracle.hh, split over cores; 'S' (stats) / 'V' (violation) JSON lines."""
 import json
 import os
+import subprocess
 
 from . import core
 from .sweep34 import cflags, lit128, target_expr
@@ -14,11 +15,13 @@ KINDS = ["cleared-undefined", "cleared-wrong-value", "ovf-unjustified", "uncasta
          "cleared-truncates", "ub-in-cleared-checker", "ub-in-conversion"]
 
 RUN_TEMPLATE = r'''
-#include "c05_ubsan.hh"
-#include "c05_oracle.hh"
+#include "c05_report.hh"
 namespace {
 using vf5::i128;
 using vf5::u128;
+using vf5::Ctx;
+using vf5::Det;
+using vf5::Val;
 template <bool B> using BoolC = std::integral_constant<bool, B>;
 struct IntInt {}; struct IntFp {}; struct FpFp {}; struct FpInt {};
 template <bool SI, bool TI> struct CatOf;
@@ -27,76 +30,6 @@ template <> struct CatOf<true, false> { typedef IntFp type; };
 template <> struct CatOf<false, false> { typedef FpFp type; };
 template <> struct CatOf<false, true> { typedef FpInt type; };
 
-enum Kind { K_UNDEF, K_WRONG, K_OVF, K_UNCAST, K_TRUNC, K_UBCHK, K_UBCONV, NK };
-const char *const KIND_NAME[NK] = {"cleared-undefined", "cleared-wrong-value", "ovf-unjustified",
-                                   "uncastable-not-lossy", "cleared-truncates",
-                                   "ub-in-cleared-checker", "ub-in-conversion"};
-
-struct Stats {
-    unsigned long long evals = 0, n_trunc = 0, n_ovf = 0, n_lossy = 0, n_cleared = 0, n_exec = 0,
-                       n_band = 0, n_viol = 0, n_must = 0, ub_chk_lossy = 0, ub_chk_lossy_na = 0, ub_chk_cleared = 0,
-                       ub_conv = 0, n_nonfinite = 0, band_ulp = 0, nk[NK] = {0, 0, 0, 0, 0, 0, 0};
-    double max_ulp = 0;
-};
-
-template <typename I>
-struct Ctx {
-    int id, show;
-    Stats st;
-    int shown[NK];
-    std::string first_cleared, first_lossy;
-    Ctx(int i, int s) : id(i), show(s) { for (int k = 0; k < NK; ++k) shown[k] = 0; }
-};
-
-template <typename X, bool FP = std::is_floating_point<X>::value> struct Str;
-template <typename X> struct Str<X, false> {
-    static std::string val(X x) { return vf::int_str(x); }
-    static std::string bits(X) { return ""; }
-};
-template <typename X> struct Str<X, true> {
-    static std::string val(X x) { return vf5::fp_str(x); }
-    static std::string bits(X x) { return vf5::bits_hex(x); }
-};
-
-inline std::string kv(const char *k, const std::string &v) {
-    return std::string(",\"") + k + "\":\"" + v + "\"";
-}
-// details are rendered lazily (only when a violation line is actually printed)
-template <typename F> struct YDet {
-    F y;
-    std::string str() const {
-        return kv("y", vf5::fp_str(y)) + kv("ybits", vf5::bits_hex(y)) + kv("yint", vf5::int_of_fp_str(y));
-    }
-};
-struct StagesDet {
-    vf5::StagesInt s;
-    std::string str() const {
-        char buf[200];
-        std::snprintf(buf, sizeof buf, ",\"stages\":{\"st1_in\":%d,\"prod_in_p\":%d,\"trunc\":%d,"
-                      "\"st2_out\":%d,\"band\":%d,\"st3_in\":%d}", s.st1_in, s.prod_in_p, s.trunc, s.st2_out,
-                      s.band, s.st3_in);
-        return std::string(buf) + kv("exact", s.st1_in ? std::string(s.neg ? "-" : "") + vf::u128_str(s.q) : "");
-    }
-};
-template <typename D> struct Plus {
-    const D &d;
-    std::string extra;
-    std::string str() const { return d.str() + extra; }
-};
-template <typename D> Plus<D> plus(const D &d, const std::string &e) { return Plus<D>{d, e}; }
-
-template <typename I, typename Det>
-void emit(Ctx<I> &c, int kind, typename I::S x, bool lt, bool lo, bool ll, const Det &det) {
-    ++c.st.n_viol;
-    ++c.st.nk[kind];
-    if (c.shown[kind]++ >= c.show) return;
-    const std::string detail = det.str();
-    std::printf("V {\"inst\":%d,\"S\":\"%s\",\"T\":\"%s\",\"C\":\"%s\",\"N\":\"%llu\",\"D\":\"%llu\","
-                "\"x\":\"%s\",\"xbits\":\"%s\",\"kind\":\"%s\",\"lib\":{\"trunc\":%d,\"ovf\":%d,\"lossy\":%d}%s}\n",
-                c.id, I::sname(), I::tname(), I::cname(), (unsigned long long)I::N,
-                (unsigned long long)I::D, Str<typename I::S>::val(x).c_str(),
-                Str<typename I::S>::bits(x).c_str(), KIND_NAME[kind], lt, lo, ll, detail.c_str());
-}
 // ---- the library under test ---------------------------------------------------------------------
 template <typename I>
 struct Results {
@@ -111,10 +44,13 @@ void exec_rc(BoolC<true>, au::Quantity<au::Meters, typename I::S> q, Results<I> 
 }
 template <typename I>
 void exec_rc(BoolC<false>, au::Quantity<au::Meters, typename I::S>, Results<I> &) {}
+// all five spellings of the rep-changing conversion; returns the UBSan events seen while they ran
 template <typename I>
-void exec_all(au::Quantity<au::Meters, typename I::S> q, Results<I> &r) {
+vf5::UbSnap exec_all(typename I::S x, Results<I> &r) {
     typedef typename I::T T;
     typename I::Target target{};
+    const auto q = au::meters(x);
+    const vf5::UbSnap u0 = vf5::ub_now();
     r.n = 0;
     r.form[r.n] = "coerce_in<T>";
     r.v[r.n++] = q.template coerce_in<T>(target);
@@ -125,146 +61,144 @@ void exec_all(au::Quantity<au::Meters, typename I::S> q, Results<I> &r) {
     r.form[r.n] = "as<T>";
     r.v[r.n++] = q.template as<T>(target).in(target);
     exec_rc<I>(BoolC<(I::N == 1 && I::D == 1)>{}, q, r);
+    return vf5::ub_since(u0);
 }
 // stage 2 for a floating common type: the library's own same-rep conversion, taken as given
 template <typename I>
 typename I::C lib_scale(typename I::S x) {
     return au::meters(static_cast<typename I::C>(x)).coerce_in(typename I::Target{});
 }
+inline void after_exec(Ctx &c, const Val &x, bool lt, bool lo, bool ll, const vf5::UbSnap &u, const Det &d) {
+    ++c.st.n_exec;
+    if (u.total()) { c.st.ub_conv += u.total(); vf5::emit(c, vf5::K_UBCONV, x, lt, lo, ll, d); }
+}
+inline void wrong(Ctx &c, const Val &x, bool lt, bool lo, bool ll, Det d, const char *form, const char *why,
+                  const Val &got, const Val *expect) {
+    d.form = form; d.why = why; d.has_got = true; d.got = got;
+    if (expect) { d.has_expect = true; d.expect = *expect; }
+    vf5::emit(c, vf5::K_WRONG, x, lt, lo, ll, d);
+}
 
 // ---- judges ------------------------------------------------------------------------------------
 template <typename I>
-void judge(Ctx<I> &c, typename I::S x, bool lt, bool lo, bool ll, const vf5::UbSnap &ubc, IntInt) {
+void judge(Ctx &c, typename I::S x, bool lt, bool lo, bool ll, const vf5::UbSnap &ubc, IntInt) {
     typedef typename I::S S; typedef typename I::C C; typedef typename I::T T;
-    const vf5::StagesInt s = vf5::stages_int<S, C, T>(x, I::N, I::D);
-    const StagesDet det{s};
-    if (lo && !s.some_stage_leaves_range()) emit(c, K_OVF, x, lt, lo, ll, det);
+    const Val xv = vf5::val(x);
+    Det d;
+    d.has_stages = true;
+    d.st = vf5::stages_int<S, C, T>(x, I::N, I::D);
+    const vf5::StagesInt &s = d.st;
+    if (lo && !s.some_stage_leaves_range()) vf5::emit(c, vf5::K_OVF, xv, lt, lo, ll, d);
     if (s.st1_in && s.band) ++c.st.n_band;
     if (!s.all_defined_exact()) ++c.st.n_must;
-    if (ll) { c.st.ub_chk_lossy += ubc.arith; c.st.ub_chk_lossy_na += ubc.fcast + ubc.other; return; }
-    ++c.st.n_cleared;
-    if (ubc.total()) { c.st.ub_chk_cleared += ubc.total(); emit(c, K_UBCHK, x, lt, lo, ll, det); }
-    if (!s.all_defined_exact()) { emit(c, K_UNDEF, x, lt, lo, ll, det); return; }   // never executed
+    if (vf5::account(c, xv, lt, lo, ll, ubc, d)) return;
+    if (!s.all_defined_exact()) { vf5::emit(c, vf5::K_UNDEF, xv, lt, lo, ll, d); return; }   // never executed
     const T expect = s.neg ? static_cast<T>(-(i128)s.q) : static_cast<T>(s.q);   // st3_in: fits T
-    const vf5::UbSnap u0 = vf5::ub_now();
     Results<I> r;
-    exec_all<I>(au::meters(x), r);
-    const vf5::UbSnap u1 = vf5::ub_since(u0);
-    ++c.st.n_exec;
+    const vf5::UbSnap u = exec_all<I>(x, r);
     for (int i = 0; i < r.n; ++i)
-        if (r.v[i] != expect) {
-            emit(c, K_WRONG, x, lt, lo, ll, plus(det, kv("form", r.form[i]) + kv("got", vf::int_str(r.v[i]))));
-            break;
-        }
-    if (u1.total()) { c.st.ub_conv += u1.total(); emit(c, K_UBCONV, x, lt, lo, ll, det); }
+        if (r.v[i] != expect) { wrong(c, xv, lt, lo, ll, d, r.form[i], nullptr, vf5::val(r.v[i]), nullptr); break; }
+    after_exec(c, xv, lt, lo, ll, u, d);
 }
 
 template <typename I>
-void judge(Ctx<I> &c, typename I::S x, bool lt, bool lo, bool ll, const vf5::UbSnap &ubc, IntFp) {
+void judge(Ctx &c, typename I::S x, bool lt, bool lo, bool ll, const vf5::UbSnap &ubc, IntFp) {
     typedef typename I::C C; typedef typename I::T T;
     static_assert(std::is_same<C, T>::value, "integral source, floating target: C == T");
+    const Val xv = vf5::val(x);
     const C y = lib_scale<I>(x);   // int -> floating cast and floating multiply: always defined
-    const YDet<C> det{y};
+    Det d;
+    d.has_y = true;
+    d.y = vf5::val(y);
     // |x*N/D| < 2^64 * 2^31 < FLT_MAX: no stage of an integral source can leave a floating range
-    if (lo) emit(c, K_OVF, x, lt, lo, ll, det);
-    if (ll) { c.st.ub_chk_lossy += ubc.arith; c.st.ub_chk_lossy_na += ubc.fcast + ubc.other; return; }
-    ++c.st.n_cleared;
-    if (ubc.total()) { c.st.ub_chk_cleared += ubc.total(); emit(c, K_UBCHK, x, lt, lo, ll, det); }
-    if (!vf5::finite(y)) { emit(c, K_UNDEF, x, lt, lo, ll, det); return; }
-    const vf5::UbSnap u0 = vf5::ub_now();
+    if (lo) vf5::emit(c, vf5::K_OVF, xv, lt, lo, ll, d);
+    if (vf5::account(c, xv, lt, lo, ll, ubc, d)) return;
+    if (!vf5::finite(y)) { vf5::emit(c, vf5::K_UNDEF, xv, lt, lo, ll, d); return; }
     Results<I> r;
-    exec_all<I>(au::meters(x), r);
-    const vf5::UbSnap u1 = vf5::ub_since(u0);
-    ++c.st.n_exec;
+    const vf5::UbSnap u = exec_all<I>(x, r);
     for (int i = 0; i < r.n; ++i)
         if (!(vf5::to_bits(r.v[i]) == vf5::to_bits(y))) {
-            emit(c, K_WRONG, x, lt, lo, ll, plus(det, kv("form", r.form[i]) + kv("why", "stage-composition") +
-                 kv("got", vf5::fp_str(r.v[i])) + kv("gotbits", vf5::bits_hex(r.v[i]))));
+            wrong(c, xv, lt, lo, ll, d, r.form[i], "stage-composition", vf5::val(r.v[i]), nullptr);
             break;
         }
     const double ue = vf5::ulp_error<T>(x, I::N, I::D, r.v[0]);
     if (ue > c.st.max_ulp) c.st.max_ulp = ue;
-    if (ue > 3.0)
-        emit(c, K_WRONG, x, lt, lo, ll, plus(det, kv("form", r.form[0]) + kv("why", "ulp") +
-             kv("got", vf5::fp_str(r.v[0])) + kv("gotbits", vf5::bits_hex(r.v[0]))));
+    if (ue > 3.0) wrong(c, xv, lt, lo, ll, d, r.form[0], "ulp", vf5::val(r.v[0]), nullptr);
     else if (ue > 2.0) ++c.st.band_ulp;
-    if (u1.total()) { c.st.ub_conv += u1.total(); emit(c, K_UBCONV, x, lt, lo, ll, det); }
+    after_exec(c, xv, lt, lo, ll, u, d);
 }
 
 template <typename I>
-void judge(Ctx<I> &c, typename I::S x, bool lt, bool lo, bool ll, const vf5::UbSnap &ubc, FpFp) {
+void judge(Ctx &c, typename I::S x, bool lt, bool lo, bool ll, const vf5::UbSnap &ubc, FpFp) {
     typedef typename I::C C; typedef typename I::T T;
+    const Val xv = vf5::val(x);
     const C y = lib_scale<I>(x);   // widening cast and floating multiply: always defined
-    const YDet<C> det{y};
+    Det d;
+    d.has_y = true;
+    d.y = vf5::val(y);
     const bool xfin = vf5::finite(x);
     if (!xfin) ++c.st.n_nonfinite;
     const C tmaxc = static_cast<C>(std::numeric_limits<T>::max());   // C contains T: exact
     const bool y_in_t = vf5::finite(y) && y <= tmaxc && y >= -tmaxc;
     if (xfin && !y_in_t) ++c.st.n_must;
-    if (ll) { c.st.ub_chk_lossy += ubc.arith; c.st.ub_chk_lossy_na += ubc.fcast + ubc.other; return; }
-    ++c.st.n_cleared;
-    if (ubc.total()) { c.st.ub_chk_cleared += ubc.total(); emit(c, K_UBCHK, x, lt, lo, ll, det); }
+    if (vf5::account(c, xv, lt, lo, ll, ubc, d)) return;
     if (xfin && !vf5::finite(y)) {
         // finite input, scaling left the range of C.  Don't-care band: |x|*N/D <= max(C)*(1+8eps)
         const long double ax = std::fabs(static_cast<long double>(x));
         const long double a = std::ldexp(ax, -70) * (long double)I::N / (long double)I::D;
         const long double m = std::ldexp(static_cast<long double>(std::numeric_limits<C>::max()), -70) *
                               (1.0L + 8.0L * (long double)std::numeric_limits<C>::epsilon());
-        if (a > m) { emit(c, K_UNDEF, x, lt, lo, ll, plus(det, kv("why", "stage2-nonfinite"))); return; }
+        if (a > m) { d.why = "stage2-nonfinite"; vf5::emit(c, vf5::K_UNDEF, xv, lt, lo, ll, d); return; }
         ++c.st.n_band;
     } else if (xfin && !y_in_t) {
-        emit(c, K_UNDEF, x, lt, lo, ll, plus(det, kv("why", "stage3-out-of-range")));   // never executed
+        d.why = "stage3-out-of-range";
+        vf5::emit(c, vf5::K_UNDEF, xv, lt, lo, ll, d);   // never executed
         return;
     }
     const T expect = static_cast<T>(y);   // defined: |y| <= max(T), or y is +-inf / NaN
-    const vf5::UbSnap u0 = vf5::ub_now();
     Results<I> r;
-    exec_all<I>(au::meters(x), r);
-    const vf5::UbSnap u1 = vf5::ub_since(u0);
-    ++c.st.n_exec;
+    const vf5::UbSnap u = exec_all<I>(x, r);
     for (int i = 0; i < r.n; ++i) {
         const bool same = (expect != expect) ? (r.v[i] != r.v[i])
                                              : (vf5::to_bits(r.v[i]) == vf5::to_bits(expect));
         if (!same) {
-            emit(c, K_WRONG, x, lt, lo, ll, plus(det, kv("form", r.form[i]) + kv("expect", vf5::fp_str(expect)) +
-                 kv("got", vf5::fp_str(r.v[i])) + kv("gotbits", vf5::bits_hex(r.v[i]))));
+            const Val ev = vf5::val(expect);
+            wrong(c, xv, lt, lo, ll, d, r.form[i], nullptr, vf5::val(r.v[i]), &ev);
             break;
         }
     }
-    if (u1.total()) { c.st.ub_conv += u1.total(); emit(c, K_UBCONV, x, lt, lo, ll, det); }
+    after_exec(c, xv, lt, lo, ll, u, d);
 }
 
 template <typename I>
-void judge(Ctx<I> &c, typename I::S x, bool lt, bool lo, bool ll, const vf5::UbSnap &ubc, FpInt) {
+void judge(Ctx &c, typename I::S x, bool lt, bool lo, bool ll, const vf5::UbSnap &ubc, FpInt) {
     typedef typename I::C C; typedef typename I::T T;
+    const Val xv = vf5::val(x);
     const C y = lib_scale<I>(x);   // floating multiply only
-    const YDet<C> det{y};
+    Det d;
+    d.has_y = true;
+    d.y = vf5::val(y);
     if (!vf5::finite(x)) ++c.st.n_nonfinite;
     const bool cast_ok = vf5::castable<T>(y);
     const bool integral = vf5::integral_valued(y);
     if (!cast_ok || !integral) ++c.st.n_must;
-    if (!cast_ok && !ll) emit(c, K_UNCAST, x, lt, lo, ll, det);   // never executed
-    if (ll) { c.st.ub_chk_lossy += ubc.arith; c.st.ub_chk_lossy_na += ubc.fcast + ubc.other; return; }
-    ++c.st.n_cleared;
-    if (ubc.total()) { c.st.ub_chk_cleared += ubc.total(); emit(c, K_UBCHK, x, lt, lo, ll, det); }
+    if (!cast_ok && !ll) vf5::emit(c, vf5::K_UNCAST, xv, lt, lo, ll, d);   // never executed
+    if (vf5::account(c, xv, lt, lo, ll, ubc, d)) return;
     if (!cast_ok) return;
-    if (!integral) { emit(c, K_TRUNC, x, lt, lo, ll, det); return; }
+    if (!integral) { vf5::emit(c, vf5::K_TRUNC, xv, lt, lo, ll, d); return; }
     const i128 expect = static_cast<i128>(y);   // integral-valued and within the range of T
-    const vf5::UbSnap u0 = vf5::ub_now();
     Results<I> r;
-    exec_all<I>(au::meters(x), r);
-    const vf5::UbSnap u1 = vf5::ub_since(u0);
-    ++c.st.n_exec;
+    const vf5::UbSnap u = exec_all<I>(x, r);
     for (int i = 0; i < r.n; ++i)
         if (static_cast<i128>(r.v[i]) != expect) {
-            emit(c, K_WRONG, x, lt, lo, ll, plus(det, kv("form", r.form[i]) + kv("got", vf::int_str(r.v[i]))));
+            wrong(c, xv, lt, lo, ll, d, r.form[i], nullptr, vf5::val(r.v[i]), nullptr);
             break;
         }
-    if (u1.total()) { c.st.ub_conv += u1.total(); emit(c, K_UBCONV, x, lt, lo, ll, det); }
+    after_exec(c, xv, lt, lo, ll, u, d);
 }
 
 template <typename I>
-inline void eval_one(Ctx<I> &c, typename I::S x) {
+inline void eval_one(Ctx &c, typename I::S x) {
     typedef typename I::T T;
     typename I::Target target{};
     const auto q = au::meters(x);
@@ -277,37 +211,26 @@ inline void eval_one(Ctx<I> &c, typename I::S x) {
     c.st.n_trunc += lt;
     c.st.n_ovf += lo;
     c.st.n_lossy += ll;
-    if (ll ? c.first_lossy.empty() : c.first_cleared.empty())
-        (ll ? c.first_lossy : c.first_cleared) = Str<typename I::S>::val(x);
+    if (ll) { if (!c.have_lossy) { c.have_lossy = true; c.first_lossy = vf5::val(x); } }
+    else if (!c.have_cleared) { c.have_cleared = true; c.first_cleared = vf5::val(x); }
     judge<I>(c, x, lt, lo, ll, ubc,
              typename CatOf<std::is_integral<typename I::S>::value, std::is_integral<T>::value>::type{});
 }
 
 template <typename I>
-void finish(const Ctx<I> &c) {
-    const Stats &s = c.st;
-    std::printf("S {\"inst\":%d,\"S\":\"%s\",\"T\":\"%s\",\"C\":\"%s\",\"N\":\"%llu\",\"D\":\"%llu\",\"evals\":%llu,"
-                "\"trunc\":%llu,\"ovf\":%llu,\"lossy\":%llu,\"cleared\":%llu,\"exec\":%llu,\"band\":%llu,"
-                "\"viol\":%llu,\"must\":%llu,\"ub_chk_lossy\":%llu,\"ub_chk_lossy_na\":%llu,\"ub_chk_cleared\":%llu,\"ub_conv\":%llu,"
-                "\"nonfinite\":%llu,\"band_ulp\":%llu,\"max_ulp\":%.4f,\"first_cleared\":\"%s\",\"first_lossy\":\"%s\","
-                "\"nk\":[%llu,%llu,%llu,%llu,%llu,%llu,%llu]}\n",
-                c.id, I::sname(), I::tname(), I::cname(), (unsigned long long)I::N, (unsigned long long)I::D,
-                s.evals, s.n_trunc, s.n_ovf, s.n_lossy, s.n_cleared, s.n_exec, s.n_band, s.n_viol, s.n_must,
-                s.ub_chk_lossy, s.ub_chk_lossy_na, s.ub_chk_cleared, s.ub_conv, s.n_nonfinite, s.band_ulp, s.max_ulp,
-                c.first_cleared.c_str(), c.first_lossy.c_str(),
-                s.nk[0], s.nk[1], s.nk[2], s.nk[3], s.nk[4], s.nk[5], s.nk[6]);
-    std::fflush(stdout);
+Ctx make_ctx(int id, int show) {
+    static_assert(std::is_same<typename I::C, std::common_type_t<typename I::S, typename I::T>>::value,
+                  "independent common-type table disagrees with the compiler's std::common_type");
+    return Ctx(id, show, I::sname(), I::tname(), I::cname(), I::N, I::D);
 }
 
 // integral source: inclusive intervals
 template <typename I>
 void run_iv(int id, int show, const vf::Interval *iv, int niv) {
-    static_assert(std::is_same<typename I::C, std::common_type_t<typename I::S, typename I::T>>::value,
-                  "independent common-type table disagrees with the compiler's std::common_type");
-    Ctx<I> c(id, show);
+    Ctx c = make_ctx<I>(id, show);
     for (int k = 0; k < niv; ++k)
         for (i128 v = iv[k].lo; v <= iv[k].hi; ++v) eval_one<I>(c, static_cast<typename I::S>(v));
-    finish(c);
+    vf5::finish(c);
 }
 template <typename F>
 const std::vector<vf5::Bits> &base_cached(int tier) {
@@ -317,32 +240,30 @@ const std::vector<vf5::Bits> &base_cached(int tier) {
 // floating source: the structured alphabet (type part + instance part)
 template <typename I>
 void run_fpset(int id, int show, int tier) {
-    static_assert(std::is_same<typename I::C, std::common_type_t<typename I::S, typename I::T>>::value,
-                  "independent common-type table disagrees with the compiler's std::common_type");
     typedef typename I::S S;
-    Ctx<I> c(id, show);
+    Ctx c = make_ctx<I>(id, show);
     const std::vector<vf5::Bits> &base = base_cached<S>(tier);
     for (const vf5::Bits &b : base) eval_one<I>(c, vf5::from_bits<S>(b));
     for (const vf5::Bits &b : vf5::inst_set<S>(I::N, I::D, tier))
         if (!std::binary_search(base.begin(), base.end(), b)) eval_one<I>(c, vf5::from_bits<S>(b));
-    finish(c);
+    vf5::finish(c);
 }
 // floating source: explicit bit patterns (replay)
 template <typename I>
 void run_fpbits(int id, int show, const char *const *hex, int n) {
     typedef typename I::S S;
-    Ctx<I> c(id, show);
+    Ctx c = make_ctx<I>(id, show);
     for (int k = 0; k < n; ++k)
         eval_one<I>(c, vf5::from_bits<S>(vf5::parse_bits(hex[k], vf5::FpInfo<S>::nbytes)));
-    finish(c);
+    vf5::finish(c);
 }
 // float source: a contiguous range of the 2^32 bit patterns
 template <typename I>
 void run_f32(int id, int show, std::uint32_t lo, std::uint32_t hi) {
     static_assert(std::is_same<typename I::S, float>::value, "float only");
-    Ctx<I> c(id, show);
+    Ctx c = make_ctx<I>(id, show);
     for (std::uint64_t p = lo; p <= hi; ++p) eval_one<I>(c, vf5::from_bits<float>(vf5::Bits{p, 0}));
-    finish(c);
+    vf5::finish(c);
 }
 }  // namespace
 '''
@@ -389,9 +310,15 @@ def flags_for(cfg, san, opt):
     return [opt] + (SAN if san else []) + cflags(cfg)
 
 
-def build_and_run(run, cfg, tag, insts, jobs, san, ntu, opt="-O2", parts_per_bin=1, timeout=7200):
+class SoftTimeout(Exception):
+    pass
+
+
+def build_and_run(run, cfg, tag, insts, jobs, san, ntu, opt="-O2", parts_per_bin=1, timeout=7200,
+                  soft=False):
     """Distribute jobs over ntu TUs (keeping jobs of one instance together where possible), build all
-    in parallel, run every binary in parts_per_bin parts.  Returns (stats, violations)."""
+    in parallel, run every binary in parts_per_bin parts.  Returns (stats, violations).
+    soft=True: a binary exceeding `timeout` raises SoftTimeout (deadline guard) instead of InfraError."""
     wd = os.path.join(run.wd, tag)
     os.makedirs(wd, exist_ok=True)
     fl = flags_for(cfg, san, opt)
@@ -418,13 +345,21 @@ def build_and_run(run, cfg, tag, insts, jobs, san, ntu, opt="-O2", parts_per_bin
 
     def runexe(job):
         exe, part = job
-        rc, out, err = core.sh([exe, str(part), str(parts_per_bin)], timeout=timeout)
+        try:
+            rc, out, err = core.sh([exe, str(part), str(parts_per_bin)], timeout=timeout)
+        except subprocess.TimeoutExpired:
+            if soft:
+                return None
+            raise core.InfraError("C05 sweep binary %s part %d timed out after %ds" % (exe, part, timeout))
         if rc != 0:
             raise core.InfraError("C05 sweep binary %s part %d failed rc=%d: %s" % (exe, part, rc, err[-2000:]))
         return out
 
     stats, viols = [], []
-    for out in core.pmap(runexe, rjobs):
+    outs = core.pmap(runexe, rjobs)
+    if any(o is None for o in outs):
+        raise SoftTimeout()
+    for out in outs:
         for line in out.split("\n"):
             if line.startswith("S "):
                 stats.append(json.loads(line[2:]))
